@@ -100,15 +100,15 @@ Arguments Val {A} a.
 Arguments Panicked {A}.
 
 (* decode_headers + the filter/map of extract_pseudo_header_order: a fresh Decoder on the header
-   block; headers whose name or value is not UTF-8 are dropped; a decoding error yields the empty
-   order *)
+   block; headers whose NAME is not UTF-8 are dropped (the value is converted lossily and never
+   looked at: fix for C17-ps-nonutf8); a decoding error yields the empty order *)
 Definition is_headers_pos (f : frame) : bool := (f_type f =? T_HEADERS) && (0 <? f_stream f).
 Definition pseudo_order_of_payload (payload : bytes) : outcome (list pseudo) :=
   match hpack_decode dt_new payload with
   | DOk hs _ =>
       Val (map (fun h => pseudo_from (fst h))
                (filter (fun h => starts_with_colon (fst h))
-                       (filter (fun h => utf8_valid (fst h) && utf8_valid (snd h)) hs)))
+                       (filter (fun h => utf8_valid (fst h)) hs)))
   | DErr => Val []
   | DPanic => Panicked
   | DFuel => Val []          (* unreachable, see HpackProofs.decode_loop_fuel *)
